@@ -43,14 +43,15 @@ ASSUME = {
 
 INCA = ["A-hash", "A-clone", "A-std", "A-fs", "A-codec", "A-cmd", "A-arith", "A-all", "R1"]
 CFGA = ["A-hash", "A-clone", "A-std", "A-yaml", "A-all"]
+FSA = ["A-walkdir", "A-str", "A-adapters"]
 ACTORS = ["A-hash", "A-clone", "A-std", "A-chan", "A-proc", "A-bridge", "R1", "R16"]
 PROPS = {
     "C01": {"units": ["ACT", "RELAY", "CFG"], "level": "proof", "assume": ACTORS},
     "C04": {"units": ["ACT", "RELAY"], "level": "proof", "assume": ACTORS + ["A-exec"],
             "not_covered": ["not covered: liveness itself (executor fairness, that scripts terminate, any time bound) - only the safety skeleton of termination is proved"]},
-    "C02": {"units": ["INC", "UTIL"], "level": "proof", "assume": INCA,
+    "C02": {"units": ["INC", "UTIL", "FS"], "level": "proof", "assume": INCA + FSA,
             "not_covered": ["not covered: hash collisions (the record holds a hash of the content), the directory walk itself (A-fs), timestamp granularity"]},
-    "C03": {"units": ["INC", "UTIL"], "level": "proof", "assume": INCA,
+    "C03": {"units": ["INC", "UTIL", "FS"], "level": "proof", "assume": INCA + FSA,
             "not_covered": ["not covered: 're-running executes no script' across two processes is the conjunction of C03.record at the end of run 1 and C03.reflexive at the start of run 2 under A-codec, not a two-process experiment; a read error on the state file forces a rebuild"]},
     "C05": {"units": ["INC", "BLD", "ACT"], "level": "proof", "assume": INCA + ["A-chan", "A-proc", "R16"]},
     "C06": {"units": ["ACT", "RELAY", "INC", "WCH", "CLN"], "level": "proof", "assume": ACTORS + ["A-notify", "A-fs", "A-codec"],
@@ -64,9 +65,9 @@ PROPS = {
     "C10": {"units": ["BLD", "ACT", "RELAY", "CLN"], "level": "proof", "assume": ACTORS,
             "not_covered": ["not covered: any latency bound; grandchildren of the shell; the hand-off from the signal handler task"]},
     "C11": {"units": ["ACT", "RELAY"], "level": "proof", "assume": ACTORS},
-    "C12": {"units": ["CLN", "INC"], "level": "proof", "assume": ["A-hash", "A-std", "A-fs", "A-clap", "R1"],
+    "C12": {"units": ["CLN", "INC", "FS"], "level": "proof", "assume": ["A-hash", "A-std", "A-fs", "A-clap", "R1"] + FSA,
             "not_covered": ["not covered: what remove_dir_all and the directory walk do with symbolic links (A-fs); clap argument parsing"]},
-    "C13": {"units": ["CFG", "INC", "WCH"], "level": "proof", "assume": CFGA + ["A-fs", "A-codec", "A-cmd"],
+    "C13": {"units": ["CFG", "INC", "WCH", "FS"], "level": "proof", "assume": CFGA + ["A-fs", "A-codec", "A-cmd"] + FSA,
             "not_covered": ["not covered: Path::join itself (an uninterpreted function of directory and relative text); the regex that recognises X.output entries (A-yaml)"]},
     "C14": {"units": ["CFG", "CLN"], "level": "proof", "assume": CFGA,
             "not_covered": ["not applicable within C14: totality and strictness of parsing (serde_yaml, derive attributes, regexes) - third-party parser code with no contract within reach; only the uniqueness / import-name / injectivity half is proved"]},
